@@ -16,7 +16,8 @@
 //!   task's set, i.e. registered with the mock task;
 //! * `subtask.cancel` on a not-yet-started call answers `STARTED_CANCELLED`,
 //!   `RETURNED_CANCELLED` or `RETURNED`; on a started call `RETURNED_CANCELLED`
-//!   or `RETURNED`; it traps once the resolution was delivered;
+//!   or `RETURNED`; it traps once the resolution was delivered, when called
+//!   twice, and while the subtask is still joined to a set;
 //! * `subtask.drop` traps unless the resolution was delivered;
 //! * the host reads the parameter area during the call and writes the result
 //!   area right before it reports `RETURNED` (so a guest that frees the area
@@ -35,31 +36,10 @@ const RETURNED: u32 = 2;
 const STARTED_CANCELLED: u32 = 3;
 const RETURNED_CANCELLED: u32 = 4;
 
-pub(crate) const TOKEN: u32 = 0x5eed_0001;
-const RESULT_VAL: u32 = 0x0dd_ba11;
+const TOKEN: u32 = 0x5eed_00a7;
+const RESULT_VAL: u32 = 0x0dd_ba1b;
 
-static mut NOMEM: bool = false;
-static mut MEMMODE: u32 = 0; // 0 = u32 accesses, 1 = single byte accesses, 2 = write-only touches
-
-unsafe fn mem_store(p: *mut u8, v: u32) {
-    match MEMMODE {
-        0 => *(p as *mut u32) = v,
-        1 => *p = v as u8,
-        _ => *p = v as u8,
-    }
-}
-unsafe fn mem_check(p: *mut u8, v: u32) {
-    match MEMMODE {
-        0 => assert!(*(p as *const u32) == v),
-        1 => assert!(*p == v as u8),
-        // liveness only: a store needs a live, in-bounds object as much as a load
-        _ => *p = v as u8,
-    }
-}
-
-static mut CONSTH: bool = false;
-
-pub(crate) struct Host {
+struct Host {
     handle: u32,
     /// Last status the guest was told.
     seen: u32,
@@ -71,7 +51,7 @@ pub(crate) struct Host {
     cancel_calls: u32,
     drop_calls: u32,
     call_imports: u32,
-    pub(crate) area_size: usize,
+    area_size: usize,
     params_ptr: *mut u8,
     results_ptr: *mut u8,
     lowered: u32,
@@ -80,10 +60,9 @@ pub(crate) struct Host {
     lifted: u32,
     params_rust_dropped: u32,
     results_rust_dropped: u32,
-    queued_unpolled: bool,
 }
 
-pub(crate) static mut H: Host = Host {
+static mut H: Host = Host {
     handle: 0,
     seen: STARTING,
     resolved_delivered: false,
@@ -101,11 +80,10 @@ pub(crate) static mut H: Host = Host {
     lifted: 0,
     params_rust_dropped: 0,
     results_rust_dropped: 0,
-    queued_unpolled: false,
 };
 
-pub(crate) struct Params {
-    pub(crate) token: u32,
+struct Params {
+    token: u32,
 }
 impl Drop for Params {
     fn drop(&mut self) {
@@ -113,7 +91,7 @@ impl Drop for Params {
     }
 }
 
-pub(crate) struct Results {
+struct Results {
     val: u32,
 }
 impl Drop for Results {
@@ -123,7 +101,7 @@ impl Drop for Results {
 }
 
 #[derive(Clone, Copy)]
-pub(crate) struct Lower {
+struct Lower {
     /// Indirect parameters: pointer to the parameter record (null when the
     /// layout is empty, i.e. everything is flat).
     ptr: *mut u8,
@@ -131,48 +109,45 @@ pub(crate) struct Lower {
     flat: u32,
 }
 
-pub(crate) struct Imp {
-    pub(crate) size: usize,
-    pub(crate) roff: usize,
-}
+/// The "generated bindings" of one async import.  `size` is the size of the
+/// parameter+result area (`abi_layout`), `roff` the offset of the results.
+/// The area holds one byte of parameters at offset 0 and one byte of results
+/// at `roff` (byte accesses: the point is liveness and identity of the area,
+/// not its contents).
+struct Imp<const SIZE: usize, const ROFF: usize>;
 
 unsafe fn host_write_results() {
     H.returned = true;
     H.resolved_delivered = true;
-    if H.area_size > 0 && !NOMEM {
+    if H.area_size > 0 {
         // The host stores the results through the pointer it was given.
-        mem_store(H.results_ptr, RESULT_VAL);
+        *H.results_ptr = RESULT_VAL as u8;
     }
 }
 
 unsafe fn check_params(l: Lower) {
-    assert!(l.flat == TOKEN);
-    if NOMEM {
-        return;
-    }
-    if H.area_size > 0 && !NOMEM {
-        assert!(l.ptr == H.params_ptr);
+    assert!(l.flat == TOKEN, "lowered flat parameter corrupted");
+    if H.area_size > 0 {
+        assert!(l.ptr == H.params_ptr, "lowered parameter pointer is not the allocated area");
         // indirect parameters: the record must still be allocated and intact
-        // (read through the host's copy of the pointer, just shown equal: a
-        // pointer that travelled through the future's state machine has an
-        // imprecise points-to set in CBMC and makes the proof explode)
-        mem_check(H.params_ptr, TOKEN);
+        // (read through the host's copy of the pointer, just shown equal)
+        assert!(*H.params_ptr == TOKEN as u8, "parameter area freed or overwritten before its lists were released");
     } else {
         assert!(l.ptr.is_null());
     }
 }
 
-unsafe impl Subtask for Imp {
+unsafe impl<const SIZE: usize, const ROFF: usize> Subtask for Imp<SIZE, ROFF> {
     type Params = Params;
     type ParamsLower = Lower;
     type Results = Results;
 
     fn abi_layout(&mut self) -> Layout {
-        unsafe { Layout::from_size_align_unchecked(self.size, 4) }
+        unsafe { Layout::from_size_align_unchecked(SIZE, 1) }
     }
 
     fn results_offset(&mut self) -> usize {
-        self.roff
+        ROFF
     }
 
     unsafe fn params_lower(&mut self, params: Params, dst: *mut u8) -> Lower {
@@ -180,11 +155,9 @@ unsafe impl Subtask for Imp {
         let token = params.token;
         core::mem::forget(params);
         H.params_ptr = dst;
-        if self.size > 0 {
+        if SIZE > 0 {
             assert!(!dst.is_null(), "Cleanup::new returned null for a non-empty layout");
-            if !NOMEM {
-                mem_store(dst, token);
-            }
+            *dst = token as u8;
         } else {
             assert!(dst.is_null(), "Cleanup::new must return null for an empty layout");
         }
@@ -196,8 +169,8 @@ unsafe impl Subtask for Imp {
         assert!(H.call_imports == 1, "import called twice");
         check_params(params);
         H.results_ptr = results;
-        if self.size > 0 {
-            assert!(results == H.params_ptr.add(self.roff));
+        if SIZE > 0 {
+            assert!(results == H.params_ptr.add(ROFF), "result pointer is not area + results_offset");
         }
         let st: u32 = kani::any();
         kani::assume(st == STARTING || st == STARTED || st == RETURNED);
@@ -206,7 +179,7 @@ unsafe impl Subtask for Imp {
             host_write_results();
             return RETURNED;
         }
-        let h: u32 = if CONSTH { 5 } else { kani::any() };
+        let h: u32 = kani::any();
         kani::assume(h >= 1 && h < (1 << 28));
         H.handle = h;
         mt::EXPECT_WAITABLE = h;
@@ -215,6 +188,7 @@ unsafe impl Subtask for Imp {
 
     unsafe fn params_dealloc_lists(&mut self, lower: Lower) {
         H.dealloc_lists += 1;
+        assert!(H.seen != STARTING, "parameter lists released although the callee was never told to have started");
         check_params(lower);
     }
 
@@ -226,18 +200,18 @@ unsafe impl Subtask for Imp {
     unsafe fn results_lift(&mut self, src: *mut u8) -> Results {
         H.lifted += 1;
         assert!(H.returned, "results lifted although the call did not return");
-        if self.size > 0 && !NOMEM {
-            assert!(src == H.results_ptr);
-            mem_check(H.results_ptr, RESULT_VAL);
-            Results { val: RESULT_VAL }
+        if SIZE > 0 {
+            assert!(src == H.results_ptr, "results lifted from a pointer the host did not write");
+            assert!(*H.results_ptr == RESULT_VAL as u8, "result area freed or overwritten before the lift");
         } else {
-            Results { val: RESULT_VAL }
+            assert!(src.is_null());
         }
+        Results { val: RESULT_VAL }
     }
 }
 
 /// `[subtask-cancel]` (sync form).
-pub(crate) unsafe fn stub_subtask_cancel(handle: u32) -> u32 {
+unsafe fn stub_subtask_cancel(handle: u32) -> u32 {
     assert!(handle != 0 && handle == H.handle, "subtask.cancel on a handle the host never issued");
     assert!(!H.resolved_delivered, "subtask.cancel on a call that is no longer in progress (host traps)");
     assert!(H.cancel_calls == 0, "subtask.cancel twice (host traps)");
@@ -262,7 +236,7 @@ pub(crate) unsafe fn stub_subtask_cancel(handle: u32) -> u32 {
 }
 
 /// `[subtask-drop]`.
-pub(crate) unsafe fn stub_subtask_drop(handle: u32) {
+unsafe fn stub_subtask_drop(handle: u32) {
     assert!(handle != 0 && handle == H.handle, "subtask.drop on a handle the host never issued");
     assert!(H.resolved_delivered, "subtask.drop before the resolution was delivered (host traps)");
     assert!(
@@ -285,7 +259,6 @@ unsafe fn host_event(t: usize) {
     if code == RETURNED {
         host_write_results();
     }
-    H.queued_unpolled = true;
     mt::deliver(t, code);
 }
 
@@ -293,27 +266,15 @@ unsafe fn can_event() -> bool {
     mt::L[0].reg_set && !H.resolved_delivered && H.handle != 0
 }
 
-unsafe fn run(version: u32, events: usize) {
-    run_cfg(version, events, None, None)
-}
-
-unsafe fn run_cfg(version: u32, events: usize, big: Option<bool>, distinct: Option<bool>) {
-    run_cfg2(version, events, big, distinct, 0)
-}
-
-unsafe fn run_cfg2(version: u32, events: usize, big: Option<bool>, distinct: Option<bool>, mode: u32) {
-    NOMEM = mode & 8 != 0;
-    CONSTH = mode & 16 != 0;
-    MEMMODE = (mode >> 5) & 3;
-    let big: bool = match big {
-        Some(b) => b,
-        None => kani::any(),
-    };
-    let mut imp = Imp {
-        size: if big { 8 } else { 0 },
-        roff: if big { 4 } else { 0 },
-    };
-    H.area_size = imp.size;
+/// One import call: first poll (optional), then `rounds` rounds of
+/// "host event? ; poll?", then the future is dropped wherever it got to.
+///
+/// * `version`: task C ABI version of the mock exporting task (1 or 2);
+/// * `size`/`roff`: `abi_layout` size and results offset (0/0 = everything flat);
+/// * `distinct`: v2 only, whether `clone` hands out fresh pointers.
+unsafe fn run<const SIZE: usize, const ROFF: usize>(version: u32, rounds: usize, distinct: Option<bool>) {
+    let mut imp = Imp::<SIZE, ROFF>;
+    H.area_size = SIZE;
 
     let mut t1 = mt::new_v1(0);
     let mut t2 = mt::new_v2(0);
@@ -331,9 +292,10 @@ unsafe fn run_cfg2(version: u32, events: usize, big: Option<bool>, distinct: Opt
     let mut cx = Context::from_waker(Waker::noop());
     let mut result: Option<Results> = None;
     let mut polled = false;
+    let mut spurious = false;
     {
         let mut fut = pin!(imp.call(Params { token: TOKEN }));
-        if mode & 1 != 0 || kani::any() {
+        if kani::any() {
             polled = true;
             match fut.as_mut().poll(&mut cx) {
                 Poll::Ready(r) => result = Some(r),
@@ -342,15 +304,19 @@ unsafe fn run_cfg2(version: u32, events: usize, big: Option<bool>, distinct: Opt
                 }
             }
             let mut i = 0;
-            while i < events {
+            while i < rounds {
                 if result.is_some() {
                     break;
                 }
+                let mut fresh = false;
                 if kani::any() && can_event() {
                     host_event(0);
+                    fresh = true;
                 }
                 if kani::any() {
-                    H.queued_unpolled = false;
+                    let before = mt::L[0].n_delivered;
+                    let _ = before;
+                    spurious |= !fresh && mt::L[0].reg_set;
                     match fut.as_mut().poll(&mut cx) {
                         Poll::Ready(r) => result = Some(r),
                         Poll::Pending => {
@@ -370,11 +336,6 @@ unsafe fn run_cfg2(version: u32, events: usize, big: Option<bool>, distinct: Opt
     mt::OP_ALIVE = false;
 
     // ---- ledgers -------------------------------------------------------
-    if mode & 2 != 0 {
-        kani::cover!(result.is_some());
-        core::mem::forget(result);
-        return;
-    }
     mt::assert_quiescent();
     assert!(mt::CUR == task, "wasip3_task_set cell not restored");
 
@@ -383,21 +344,31 @@ unsafe fn run_cfg2(version: u32, events: usize, big: Option<bool>, distinct: Opt
     }
     if H.lowered == 0 {
         // never started: the parameters were dropped as a Rust value
-        assert!(H.params_rust_dropped == 1);
+        assert!(H.params_rust_dropped == 1, "unstarted call: parameters not dropped exactly once");
         assert!(H.dealloc_lists == 0 && H.dealloc_lists_and_own == 0);
         assert!(H.lifted == 0 && H.drop_calls == 0 && H.cancel_calls == 0);
     } else {
         assert!(H.lowered == 1 && H.params_rust_dropped == 0);
+        assert!(H.call_imports == 1);
         assert!(H.resolved_delivered, "future ended while the call is still in progress");
         // exactly one of the two parameter clean-ups, exactly once
-        assert!(H.dealloc_lists + H.dealloc_lists_and_own == 1);
+        assert!(
+            H.dealloc_lists + H.dealloc_lists_and_own == 1,
+            "lowered parameters must be released exactly once"
+        );
         // owned parameters released by the guest only if cancelled before start
-        assert!((H.dealloc_lists_and_own == 1) == (H.cancel_answer == STARTED_CANCELLED));
+        assert!(
+            (H.dealloc_lists_and_own == 1) == (H.cancel_answer == STARTED_CANCELLED),
+            "owned parameters are released by the guest iff the call was cancelled before it started"
+        );
     }
     // results lifted exactly once iff the call returned
-    assert!(H.lifted == if H.returned { 1 } else { 0 });
+    assert!(H.lifted == if H.returned { 1 } else { 0 }, "results lifted exactly once iff the call returned");
     // subtask handle dropped exactly once iff one was created
-    assert!(H.drop_calls == if H.handle != 0 { 1 } else { 0 });
+    assert!(
+        H.drop_calls == if H.handle != 0 { 1 } else { 0 },
+        "subtask handle dropped exactly once iff one was created"
+    );
     if H.handle == 0 {
         assert!(H.cancel_calls == 0);
     }
@@ -407,16 +378,11 @@ unsafe fn run_cfg2(version: u32, events: usize, big: Option<bool>, distinct: Opt
         assert!(H.returned && H.cancel_calls == 0);
     }
     let held = if result.is_some() { 1 } else { 0 };
-    assert!(H.results_rust_dropped + held == H.lifted);
+    assert!(H.results_rust_dropped + held == H.lifted, "lifted results owned exactly once");
 
     // ---- vacuity witnesses --------------------------------------------
-    if mode & 4 != 0 {
-        kani::cover!(result.is_some());
-        core::mem::forget(result);
-        return;
-    }
     kani::cover!(H.cancel_answer == STARTED_CANCELLED, "cancel won before start");
-    kani::cover!(H.cancel_answer == RETURNED_CANCELLED, "cancel won after start");
+    kani::cover!(H.cancel_answer == RETURNED_CANCELLED && H.dealloc_lists == 1, "cancel won after start");
     kani::cover!(H.cancel_answer == RETURNED, "cancel lost: callee returned");
     kani::cover!(result.is_some() && H.handle == 0, "returned immediately");
     kani::cover!(
@@ -427,58 +393,38 @@ unsafe fn run_cfg2(version: u32, events: usize, big: Option<bool>, distinct: Opt
         result.is_none() && H.returned && H.cancel_calls == 0 && H.handle != 0,
         "dropped with a queued RETURNED event"
     );
+    kani::cover!(
+        result.is_none() && H.cancel_calls == 1 && mt::L[0].n_delivered == 1 && H.cancel_answer == RETURNED_CANCELLED,
+        "dropped with a queued STARTED event, then cancelled"
+    );
     kani::cover!(!polled, "dropped before the first poll");
-    kani::cover!(big && H.lifted == 1, "indirect area, results lifted");
-    kani::cover!(!big && H.lifted == 1, "empty layout, results lifted");
+    kani::cover!(spurious && result.is_some(), "re-polled without an event, later completed");
 
     core::mem::forget(result);
 }
 
-#[kani::proof]
-#[kani::unwind(10)]
-#[kani::stub(wit_bindgen::rt::async_support::cabi::wasip3_task_set, crate::mock_task::stub_task_set)]
-#[kani::stub(wit_bindgen::rt::async_support::subtask::cancel, stub_subtask_cancel)]
-#[kani::stub(wit_bindgen::rt::async_support::subtask::drop, stub_subtask_drop)]
-fn c21_subtask_v1() {
-    unsafe { run(1, 2) }
-}
-
-#[kani::proof]
-#[kani::unwind(10)]
-#[kani::stub(wit_bindgen::rt::async_support::cabi::wasip3_task_set, crate::mock_task::stub_task_set)]
-#[kani::stub(wit_bindgen::rt::async_support::subtask::cancel, stub_subtask_cancel)]
-#[kani::stub(wit_bindgen::rt::async_support::subtask::drop, stub_subtask_drop)]
-fn c21_subtask_v2() {
-    unsafe { run(2, 2) }
-}
-
-macro_rules! xh {
-    ($name:ident, $v:expr, $e:expr, $b:expr, $d:expr) => {
-        xh!($name, $v, $e, $b, $d, 0);
-    };
-    ($name:ident, $v:expr, $e:expr, $b:expr, $d:expr, $m:expr) => {
+macro_rules! c21 {
+    ($name:ident, $unwind:expr, $v:expr, $rounds:expr, $size:expr, $roff:expr, $d:expr) => {
         #[kani::proof]
-        #[kani::unwind(10)]
+        #[kani::unwind($unwind)]
         #[kani::stub(wit_bindgen::rt::async_support::cabi::wasip3_task_set, crate::mock_task::stub_task_set)]
         #[kani::stub(wit_bindgen::rt::async_support::subtask::cancel, stub_subtask_cancel)]
         #[kani::stub(wit_bindgen::rt::async_support::subtask::drop, stub_subtask_drop)]
         fn $name() {
-            unsafe { run_cfg2($v, $e, $b, $d, $m) }
+            unsafe { run::<$size, $roff>($v, $rounds, $d) }
         }
     };
 }
-xh!(x21_a, 1, 0, None, None);
-xh!(x21_b, 1, 1, None, None);
-xh!(x21_c, 1, 2, Some(false), None);
-xh!(x21_d, 1, 2, Some(true), Some(false));
-xh!(x21_e, 1, 0, Some(true), Some(false), 0);
-xh!(x21_f, 1, 0, Some(true), Some(false), 1);
-xh!(x21_g, 1, 0, Some(true), Some(false), 2);
-xh!(x21_h, 1, 0, Some(true), Some(false), 4);
-xh!(x21_k, 1, 1, Some(true), Some(false), 0);
-xh!(x21_l, 1, 2, Some(true), Some(false), 2);
-xh!(x21_m, 1, 1, Some(true), Some(false), 8);
-xh!(x21_n, 1, 1, Some(true), Some(false), 16);
-xh!(x21_o, 1, 1, Some(true), Some(false), 24);
-xh!(x21_p, 1, 1, Some(true), Some(false), 32);
-xh!(x21_q, 1, 1, Some(true), Some(false), 64);
+
+// quick tier: 2 rounds (enough for STARTING -> STARTED -> RETURNED polled to
+// completion), 2-byte area (unwind 3 = two bytes poisoned by `Cleanup::drop`
+// + exit test; the harness loop runs <= 2 times)
+c21!(c21_subtask_v1_flat, 3, 1, 2, 0, 0, Some(false));
+c21!(c21_subtask_v1_indirect, 3, 1, 2, 2, 1, Some(false));
+c21!(c21_subtask_v2_flat, 3, 2, 2, 0, 0, None);
+c21!(c21_subtask_v2_indirect, 3, 2, 2, 2, 1, None);
+// thorough tier: 3 rounds, 8-byte area with results at offset 4
+c21!(c21_deep_subtask_v1_flat, 4, 1, 3, 0, 0, Some(false));
+c21!(c21_deep_subtask_v1_indirect, 9, 1, 3, 8, 4, Some(false));
+c21!(c21_deep_subtask_v2_flat, 4, 2, 3, 0, 0, None);
+c21!(c21_deep_subtask_v2_indirect, 9, 2, 3, 8, 4, None);
